@@ -107,7 +107,7 @@ pub mod datalog {
         //@ ensures table: r is Ok ==> r->Ok_0.strings_view() == symbols@ && r->Ok_0.public_keys.keys@ == Seq::<PublicKey>::empty()
         //@end
         //@extract biscuit-auth/src/datalog/symbol.rs :: impl SymbolTable :: fn extend
-        //@ external_body
+        //@ sub self\.symbols\.extend\(other\.symbols\.iter\(\)\.cloned\(\)\) => crate::verif_std::verif_extend_cloned(&mut self.symbols, &other.symbols)
         //@ ensures ok: r is Ok ==> Self::seq_disjoint(old(self).strings_view(), other.strings_view()) && Self::seq_disjoint(old(self).public_keys.keys@, other.public_keys.keys@)
         //@ ensures table: r is Ok ==> final(self).strings_view() == old(self).strings_view() + other.strings_view() && final(self).public_keys.keys@ == old(self).public_keys.keys@ + other.public_keys.keys@
         //@end
@@ -186,8 +186,12 @@ pub mod token {
             //@extract biscuit-auth/src/token/public_keys.rs :: impl PublicKeys :: fn new
             //@ ensures empty: r.keys@ == Seq::<PublicKey>::empty()
             //@end
-            //@extract biscuit-auth/src/token/public_keys.rs :: impl PublicKeys :: fn extend
+            //@extract biscuit-auth/src/token/public_keys.rs :: impl PublicKeys :: fn is_disjoint
             //@ external_body
+            //@ ensures exact: r == crate::datalog::SymbolTable::seq_disjoint(self.keys@, other.keys@)
+            //@end
+            //@extract biscuit-auth/src/token/public_keys.rs :: impl PublicKeys :: fn extend
+            //@ sub self\.keys\.extend\(other\.keys\.iter\(\)\.cloned\(\)\) => crate::verif_std::verif_extend_cloned(&mut self.keys, &other.keys)
             //@ ensures ok: r is Ok ==> crate::datalog::SymbolTable::seq_disjoint(old(self).keys@, other.keys@) && final(self).keys@ == old(self).keys@ + other.keys@
             //@end
             //@extract biscuit-auth/src/token/public_keys.rs :: impl PublicKeys :: fn insert
@@ -733,3 +737,5 @@ pub mod tspec {
 //@canary builder-keys-swapped :: token::builder::biscuit::BiscuitBuilder::build_with_key_pair :: Biscuit::new_with_key_pair(self.root_key_id, root, next, symbols, authority_block) ==>> Biscuit::new_with_key_pair(self.root_key_id, next, root, symbols, authority_block)
 //@canary from-uses-legacy-mode :: token::Biscuit::from :: Biscuit::from_with_symbols(slice.as_ref(), key_provider, default_symbol_table()) ==>> { let container = SerializedBiscuit::unsafe_from_slice(slice.as_ref(), key_provider).map_err(error::Token::Format)?; Biscuit::from_serialized_container(container, default_symbol_table()) }
 //@canary unverified-block-keys-overwritten :: token::unverified::UnverifiedBiscuit::block :: Ok(block)\n    } ==>> let mut block = block; block.symbols.public_keys = self.symbols.public_keys.clone(); Ok(block)\n    }
+//@canary symtab-extend-no-disjoint :: datalog::symbol::SymbolTable::extend :: if !self.is_disjoint(other) { ==>> if false {
+//@canary pubkeys-extend-no-disjoint :: token::public_keys::PublicKeys::extend :: if !self.is_disjoint(other) { ==>> if false {
